@@ -218,6 +218,7 @@ class TreeSim:
         self.done = None
         self.bodies = 0
         self.noops = 0
+        self.in_body_done = set()
 
         class _Probe(Exception):
             """Raised by a fallible child's forward on request; the parent catches it and calls the child again (fallback idiom)."""
@@ -243,7 +244,10 @@ class TreeSim:
                 elif isinstance(child, nn.ModuleList):
                     for m in iterate(child):
                         x = call_child(op, m, x)
-                elif getattr(child, "_vf_in_body", False):
+                elif getattr(child, "_vf_in_body", False) and id(child) not in sim.in_body_done:
+                    # (only the FIRST call of such a child happens inside a branch: a second If with the same scope would repeat the
+                    # auto-generated names of the first - the recorded sub-builder auto-name finding, not what this flag is about)
+                    sim.in_body_done.add(id(child))
                     x = call_in_body(op, child, x)
                 else:
                     mode = getattr(child, "_vf_fallible", None)
@@ -1844,7 +1848,9 @@ class TraceGen:
             other = {"lit": self.d(st.sampled_from([2.0, 0.5, 1.0, 3.0]))}   # exponent has its own type variable: float literal -> FLOAT
             self.feat.add("lit:float")
         else:
-            other = self.literal(kind, a.shape[-1] if a.ndim else None)
+            # (PRelu broadcasts its slope one way only: inside a function body, which may be called with operands of another shape, a list
+            #  literal sized for the shape seen while generating can become an illegal slope - scalar literals there)
+            other = self.literal(kind, a.shape[-1] if a.ndim and not (op == "PRelu" and self.fmode) else None)
         ins = [{"v": x}, other]
         if op != "PRelu" and op != "Pow" and self.chance(4):
             ins.reverse()
@@ -2409,6 +2415,10 @@ class TraceGen:
         saved, ids = self.body_begin([np.array(0, np.int64), np.array(True)] + [self.env[c] for c in carried])
         it, cin = ids[0], ids[1]
         self.inexact.update(p for p, c in zip(ids[2:], carried) if c in self.inexact)
+        if trip > 1:
+            # from the second iteration on a carried value is what the body returned (possibly through Tanh & co.): a floating-point
+            # loop parameter may carry rounding noise although its initial value does not
+            self.inexact.update(p for p in ids[2:] if np.asarray(self.env[p]).dtype.kind == "f")
         rets = []
         # condition
         r = self.d(st.integers(0, 3))
